@@ -171,10 +171,9 @@ impl Handler {
         Ok(())
     }
 
-    async fn serve(&mut self, store: &Store, options: ReadOptions) {
+    async fn serve(&mut self, store: &Store, mut recver: tokio::sync::mpsc::Receiver<Frame>) {
         #[cfg(feature = "verif")]
         crate::verif::sync_point("handler.serve_start", Some(&self.id));
-        let mut recver = store.read(options).await;
 
         while let Some(frame) = recver.recv().await {
             // Skip registration activity that occurred before this handler was registered
@@ -229,13 +228,16 @@ impl Handler {
     pub async fn spawn(&self, store: Store) -> Result<(), Error> {
         let options = self.configure_read_options().await;
 
+        // Subscribe before announcing: once `.registered` is visible, every later frame of the
+        // context is processed
+        let recver = store.read(options.clone()).await;
+
         {
             let store = store.clone();
-            let options = options.clone();
             let mut handler = self.clone();
 
             tokio::spawn(async move {
-                handler.serve(&store, options).await;
+                handler.serve(&store, recver).await;
             });
         }
 
